@@ -2,6 +2,7 @@
 from __future__ import annotations
 
 import asyncio
+import os
 import collections
 
 from ..lib import NMEA2000Decoder, NMEA2000Encoder
@@ -251,6 +252,64 @@ def retained_bytes(client):
     return sum(walk(v, 0) for v in vars(client).values())
 
 
+def caller_local_bytes(limit=60):
+    """Bytes held in the local variables of the library's frames on the current call stack (called from inside the stream
+    reader's read(): the stack is the client's receive path). A chunk list or a partial packet kept in a local is held back
+    just like one kept in an attribute."""
+    import sys
+    total = 0
+    seen = set()
+    fr = sys._getframe(1)
+    while fr is not None and limit > 0:
+        limit -= 1
+        if (os.sep + "nmea2000" + os.sep) in fr.f_code.co_filename:
+            for v in fr.f_locals.values():
+                stack = [v]
+                while stack:
+                    o = stack.pop()
+                    if id(o) in seen:
+                        continue
+                    seen.add(id(o))
+                    if isinstance(o, (bytes, bytearray, memoryview)):
+                        total += len(o)
+                    elif isinstance(o, (list, tuple, collections.deque)) and len(o) < 100000:
+                        stack.extend(o)
+        fr = fr.f_back
+    return total
+
+
+def run_saturated(stream, chunk):
+    """The port never runs dry: the whole stream is available at once (or in large chunks), every read the client issues comes
+    back full. What the client holds back is measured every time it comes back for more: (a) bytes handed out minus 20 bytes
+    per message that left the receive path, (b) bytes reachable from its attributes and from the locals of its receive task."""
+    box = {"held_max": 0, "samples": 0}
+
+    async def scenario(sim):
+        sim.lag_unit = 20
+        sim.spawn("connect")
+        await asyncio.sleep(0.05)
+        conn = sim.conns[0]
+
+        def hook(reader):
+            box["samples"] += 1
+            held = retained_bytes(sim.client) + caller_local_bytes()
+            if held > box["held_max"]:
+                box["held_max"] = held
+        sim.on_read_hook = hook
+        for pos in range(0, len(stream), chunk):
+            conn.feed(stream[pos:pos + chunk])
+            for _ in range(20000):
+                r = sim.client.reader
+                if r is None or len(getattr(r, "_buffer", b"")) < 4096:
+                    break
+                await asyncio.sleep(0)
+        await asyncio.sleep(2.0)
+        sim.on_read_hook = None
+        await sim.close_guarded()
+    sim, stats = simgw.run_session("waveshare", scenario, max_steps=4_000_000)
+    return sim, stats, box
+
+
 def run_stream(stream, cuts, idle):
     samples = []
 
@@ -431,6 +490,30 @@ def run_shard(spec, acc):
     if spec["what"] == "conformance_pty":
         return conformance_pty(spec, acc)
     if spec["what"] == "long_noise":
+        # a saturated port: thousands of valid packets (or packets after a flood of noise) with never a short read
+        for n_pk, chunk in ([(3000, 1 << 20), (1500, 4096)] if quick else [(3000, 1 << 20), (30000, 1 << 22), (8000, 4096), (8000, 1000)]):
+            for flood in (0, 50_000):
+                pks = [valid_packet(rng, k) for k in range(n_pk)]
+                stream = (noise(rng, flood, "marker_free") if flood else b"") + b"".join(pks)
+                sim, stats, box = run_saturated(stream, chunk)
+                acc.count("sessions")
+                acc.count("saturated_port_sessions")
+                if stats["error"] or sim is None:
+                    acc.inconclusive_because(f"simulator: {stats['error']}")
+                    continue
+                w = {"packets": n_pk, "noise_before": flood, "feed_chunk": chunk, "reads_sampled": box["samples"], "held_max": box["held_max"],
+                     "lag_max": getattr(sim, "lag_max", 0) - flood, "delivered": len(sim.received)}
+                acc.count("retained_bytes_samples", box["samples"])
+                acc.case(("saturated", n_pk, chunk, flood))
+                acc.cover("max_retained_bucket", (box["held_max"] // 32) * 32)
+                if len(sim.received) < n_pk - (1 if flood else 0):
+                    acc.violation("clean-packet-lost:saturated-port", f"{n_pk} valid packets on a port that never runs dry: {len(sim.received)} delivered", w)
+                if box["held_max"] > 4 * BOUND:
+                    acc.violation("buffer-grows-with-noise:saturated-port", f"while the port never runs dry the client holds {box['held_max']} bytes (attributes and locals of its "
+                                  f"receive task; bound {4 * BOUND})", w)
+                if not flood and getattr(sim, "lag_max", 0) > 4 * BOUND + 100:
+                    acc.violation("buffer-grows-with-noise:saturated-port", f"while the port never runs dry the client has taken {sim.lag_max} bytes more than the messages it "
+                                  f"passed on account for (bound {4 * BOUND + 100}): it is holding them back", w)
         for n in ([1000, 20000, 100000] if quick else [1000, 20000, 100000, 400000, 1000000]):
             for kind in ("marker_free", "half_marker_end", "all_aa", "aa_at_read_ends"):
                 segs = [("V", valid_packet(rng, 1)), ("N:" + kind, noise(rng, n, kind)), ("V", valid_packet(rng, 2)), ("V", valid_packet(rng, 3))]
